@@ -8,6 +8,7 @@ import (
 	"io"
 	"os"
 	"path/filepath"
+	"runtime/debug"
 	"sort"
 	"strings"
 	"sync"
@@ -45,6 +46,7 @@ type Env struct {
 
 	crash *CrashArm
 	fail  *FailArm
+	mem   map[*zenodb.DB]uint64
 
 	// Violation recorded asynchronously (e.g. unexpected db.Panic).
 	asyncViolation *Violation
@@ -84,6 +86,8 @@ type Node struct {
 	Tables  []TableDef
 	hits    map[string]int
 	closed  bool
+
+	pendingMemOK int
 }
 
 var curEnv *Env
@@ -423,6 +427,9 @@ type QResult struct {
 	Err    error
 	// PlanErr is set when planning failed (Err is then also set).
 	PlanErr bool
+	// Panicked is set when planning or executing the query panicked in the
+	// calling goroutine (Err then carries the panic value and stack).
+	Panicked bool
 }
 
 type QOpts struct {
@@ -447,23 +454,56 @@ func (n *Node) Query(sql string, o QOpts) *QResult {
 	return QueryDB(n.DB, sql, o)
 }
 
-func QueryDB(db *zenodb.DB, sql string, o QOpts) *QResult {
-	res := &QResult{SQL: sql}
-	src, err := db.Query(sql, false, nil, o.IncludeMem)
+// Prepared is a planned query (window and bucket anchors are fixed at
+// planning time).
+type Prepared struct {
+	res *QResult
+	src core.FlatRowSource
+}
+
+func (n *Node) Prepare(sql string, includeMem bool) *Prepared {
+	return PrepareDB(n.DB, sql, includeMem)
+}
+
+func PrepareDB(db *zenodb.DB, sql string, includeMem bool) (p *Prepared) {
+	p = &Prepared{res: &QResult{SQL: sql}}
+	defer func() {
+		if r := recover(); r != nil {
+			p.res.Panicked = true
+			p.res.Err = fmt.Errorf("panic: %v\n%s", r, debug.Stack())
+		}
+	}()
+	src, err := db.Query(sql, false, nil, includeMem)
 	if err != nil {
-		res.Err = err
-		res.PlanErr = true
+		p.res.Err = err
+		p.res.PlanErr = true
+		return p
+	}
+	p.src = src
+	p.res.AsOf = src.GetAsOf().UnixNano()
+	p.res.Until = src.GetUntil().UnixNano()
+	p.res.Res = int64(src.GetResolution())
+	return p
+}
+
+// Run executes the prepared query and collects the rows in delivery order.
+func (p *Prepared) Run(o QOpts) (res *QResult) {
+	res = p.res
+	if p.src == nil {
 		return res
 	}
-	res.AsOf = src.GetAsOf().UnixNano()
-	res.Until = src.GetUntil().UnixNano()
-	res.Res = int64(src.GetResolution())
+	defer func() {
+		if r := recover(); r != nil {
+			res.Panicked = true
+			res.Err = fmt.Errorf("panic: %v\n%s", r, debug.Stack())
+		}
+	}()
 	ctx := o.Ctx
 	if ctx == nil {
 		ctx = context.Background()
 	}
 	i := 0
-	md, err := src.Iterate(ctx, func(fields core.Fields) error {
+	md, err := p.src.Iterate(ctx, func(fields core.Fields) error {
 		res.Fields = fields.Names()
 		return nil
 	}, func(row *core.FlatRow) (bool, error) {
@@ -482,6 +522,10 @@ func QueryDB(db *zenodb.DB, sql string, o QOpts) *QResult {
 		res.Stats = qs
 	}
 	return res
+}
+
+func QueryDB(db *zenodb.DB, sql string, o QOpts) *QResult {
+	return PrepareDB(db, sql, o.IncludeMem).Run(o)
 }
 
 // Canon renders the rows as a sorted multiset of lines.
@@ -515,4 +559,56 @@ func (q *QResult) Field(name string) int {
 		}
 	}
 	return -1
+}
+
+// ---------------------------------------------------------------------------
+// Restart / memory pressure
+
+// RestartClean closes the node and opens a new instance on the same directory.
+func (e *Env) RestartClean(n *Node, opts *zenodb.DBOpts, tables []TableDef) (*Node, error) {
+	n.Close()
+	e.Sleep(2 * time.Millisecond)
+	e.Count("fault.restart.clean")
+	return e.OpenNode(n.Name, n.Dir, opts, tables)
+}
+
+// RestartFromImage abandons the (crashed) node and opens a new instance on
+// its crash image.
+func (e *Env) RestartFromImage(n *Node, opts *zenodb.DBOpts, tables []TableDef) (*Node, error) {
+	if !n.Crashed {
+		return nil, fmt.Errorf("node %s has no crash image", n.Name)
+	}
+	n.Dead = true
+	n.Abandon()
+	e.Sleep(2 * time.Millisecond)
+	e.Count("fault.restart.image")
+	return e.OpenNode(n.Name, n.Image, opts, tables)
+}
+
+// SetMemory makes the node's process-memory reading (hook H5) report v bytes
+// (0 = real reading).
+func (e *Env) SetMemory(n *Node, v uint64) {
+	e.mu.Lock()
+	if e.mem == nil {
+		e.mem = map[*zenodb.DB]uint64{}
+	}
+	e.mem[n.DB] = v
+	e.mu.Unlock()
+}
+
+func init() {
+	simhook.MemoryFn = func(owner interface{}, actual uint64) uint64 {
+		e := curEnv
+		if e == nil {
+			return actual
+		}
+		db, _ := owner.(*zenodb.DB)
+		e.mu.Lock()
+		defer e.mu.Unlock()
+		if v, ok := e.mem[db]; ok && v > 0 {
+			return v
+		}
+		// never let the real heap size be an input of the simulation
+		return 1 << 20
+	}
 }
